@@ -931,7 +931,8 @@ example : lineFilterL (2 : ℚ) [1 / 2, 1 / 3] (fun _ _ s => s 0) 2 (fun k => ((
 
 /-- **C18 (integer coordinates anywhere: the border rule, orders 2 and 3, any rank).** Extension of
 `C18_interpolation_property` to sources **outside** the array. Same hypotheses on the coefficients (separable one-pole
-prefilter of `f`, exact pole, `MirrorInit` initial values, axes ≥ 2). At **every** output position whose mapped
+prefilter of `f`, exact pole, `MirrorInit` initial values), every axis of one sample (not filtered, all knots fold to
+it) or at least two. At **every** output position whose mapped
 coordinates are an integer vector `js` — anywhere, e.g. an integer shift larger than the array — the whole
 `zoom_shift` model (`mapCoord`: `std_like_round` + `fix_offset` for coordinates outside `[0, len−1]`, then start knot,
 weights, mirror-folded knots, tensor sum) returns `f` at the position the **mathematical border rule** of the mode
@@ -942,8 +943,8 @@ theorem C18_interpolation_property_border {K : Type} [Field K] [LinearOrder K] [
     {fl : K → Int} (h : IsFloor fl) (m : Mode) (cval : K) (order : Nat) (lam z : K)
     (hord : (order = 2 ∧ lam = 6) ∨ (order = 3 ∧ lam = 4))
     (hz : z * z + lam * z + 1 = 0) (hz1 : z * z - 1 ≠ 0)
-    (ini : Nat → (Nat → K) → K) (im : Img K) (hshape : ∀ len ∈ im.shape, 2 ≤ len)
-    (hini : ∀ len ∈ im.shape, ∀ s : Nat → K, MirrorInit z len s (ini len s))
+    (ini : Nat → (Nat → K) → K) (im : Img K) (hshape : ∀ len ∈ im.shape, len = 1 ∨ 2 ≤ len)
+    (hini : ∀ len ∈ im.shape, 2 ≤ len → ∀ s : Nat → K, MirrorInit z len s (ini len s))
     (f : List Int → K)
     (hdata : ∀ pos, inside im.shape pos = true →
       im.getD pos 0 = prefilterNd (lineFilter1 z (2 + lam) ini) im.shape f pos)
@@ -959,14 +960,21 @@ theorem C18_interpolation_property_border {K : Type} [Field K] [LinearOrder K] [
   rw [nestedSum_inside fl order im js' hpos hin _ hdata]
   apply nested_prefilter fl order _ im.shape js' f _ hin
   intro len hlen s j h0 h1
+  rcases hshape len hlen with rfl | hlen2
+  · -- an axis with a single sample: every knot folds to it, the weights sum to one, the line is not filtered
+    have hj : j = 0 := by omega
+    subst hj
+    rcases hord with ⟨rfl, rfl⟩ | ⟨rfl, rfl⟩
+    · rw [axisComb2 h]; simp only [edgeFold_one, lineFilter1]; norm_num; ring
+    · rw [axisComb3 h]; simp only [edgeFold_one, lineFilter1]; norm_num; ring
   rcases hord with ⟨rfl, rfl⟩ | ⟨rfl, rfl⟩
   · rw [axisComb2 h]
-    have := line_inverts z 6 hz hz1 (by norm_num) ini len (hshape len hlen) (hini len hlen) s j h0 h1
+    have := line_inverts z 6 hz hz1 (by norm_num) ini len hlen2 (hini len hlen hlen2) s j h0 h1
     have e : edgeFold len j = j := edgeFold_inside len j h0 h1
     rw [e] at this ⊢
     linear_combination this
   · rw [axisComb3 h]
-    have := line_inverts z 4 hz hz1 (by norm_num) ini len (hshape len hlen) (hini len hlen) s j h0 h1
+    have := line_inverts z 4 hz hz1 (by norm_num) ini len hlen2 (hini len hlen hlen2) s j h0 h1
     have e : edgeFold len j = j := edgeFold_inside len j h0 h1
     rw [e] at this ⊢
     linear_combination this
@@ -980,8 +988,8 @@ theorem C18_interpolation_property_border_order4_5 {K : Type} [Field K] [LinearO
       (order = 5 ∧ l1 + l2 = 26 ∧ l1 * l2 = 64 ∧ w = 120))
     (h1 : z1 * z1 + l1 * z1 + 1 = 0) (h2 : z2 * z2 + l2 * z2 + 1 = 0)
     (hz1 : z1 * z1 - 1 ≠ 0) (hz2 : z2 * z2 - 1 ≠ 0)
-    (ini : K → Nat → (Nat → K) → K) (im : Img K) (hshape : ∀ len ∈ im.shape, 4 ≤ len)
-    (hini : ∀ len ∈ im.shape, ∀ z, z = z1 ∨ z = z2 → ∀ s : Nat → K, MirrorInit z len s (ini z len s))
+    (ini : K → Nat → (Nat → K) → K) (im : Img K) (hshape : ∀ len ∈ im.shape, len = 1 ∨ 4 ≤ len)
+    (hini : ∀ len ∈ im.shape, 4 ≤ len → ∀ z, z = z1 ∨ z = z2 → ∀ s : Nat → K, MirrorInit z len s (ini z len s))
     (f : List Int → K)
     (hdata : ∀ pos, inside im.shape pos = true →
       im.getD pos 0 = prefilterNd (lineFilterL w [z1, z2] ini) im.shape f pos)
@@ -997,14 +1005,20 @@ theorem C18_interpolation_property_border_order4_5 {K : Type} [Field K] [LinearO
   rw [nestedSum_inside fl order im js' hpos hin _ hdata]
   apply nested_prefilter fl order _ im.shape js' f _ hin
   intro len hlen s j h0 hj
+  rcases hshape len hlen with rfl | hlen4
+  · have hj0 : j = 0 := by omega
+    subst hj0
+    rcases hord with ⟨rfl, hs, hp, rfl⟩ | ⟨rfl, hs, hp, rfl⟩
+    · rw [axisComb4 h]; simp only [edgeFold_one, lineFilterL]; norm_num; ring
+    · rw [axisComb5 h]; simp only [edgeFold_one, lineFilterL]; norm_num; ring
   rcases hord with ⟨rfl, hs, hp, rfl⟩ | ⟨rfl, hs, hp, rfl⟩
   · rw [axisComb4 h]
-    have := line_inverts2 z1 z2 l1 l2 384 h1 h2 hz1 hz2 (by norm_num) ini len (hshape len hlen) (hini len hlen)
+    have := line_inverts2 z1 z2 l1 l2 384 h1 h2 hz1 hz2 (by norm_num) ini len hlen4 (hini len hlen hlen4)
       s j h0 hj
     simp only [hs, hp] at this
     linear_combination (1 / 384 : K) * this
   · rw [axisComb5 h]
-    have := line_inverts2 z1 z2 l1 l2 120 h1 h2 hz1 hz2 (by norm_num) ini len (hshape len hlen) (hini len hlen)
+    have := line_inverts2 z1 z2 l1 l2 120 h1 h2 hz1 hz2 (by norm_num) ini len hlen4 (hini len hlen hlen4)
       s j h0 hj
     simp only [hs, hp] at this
     linear_combination (1 / 120 : K) * this
@@ -1268,7 +1282,8 @@ The chain closed: let `coeffs = splineFilterP (filterLineP w ps (iniCode cut pw)
 driver's `spline_filter` runs (`C18_spline_filter_is_prefilterNd`), with exact poles and their weight (order 2:
 `ps = [z₁]`, `z₁² + 6z₁ + 1 = 0`, `w = 8`; order 3: `z₁² + 4z₁ + 1 = 0`, `w = 6`; order 4: `ps = [z₁, z₂]`,
 `λ₁+λ₂ = 76`, `λ₁λ₂ = 228`, `w = 384`; order 5: `26`, `64`, `120`), on lines where the code uses its closed-form
-initialisation (`cut z ≥ len` for every pole and axis, `pw z n = zⁿ`; axes of at least 2 resp. 4 samples). Then at
+initialisation (`cut z ≥ len` for every pole and axis, `pw z n = zⁿ`; every axis has one sample — it is then left
+alone by the prefilter and every knot folds to it — or at least 2 resp. 4 samples). Then at
 every output position `p` of `zoom_shift` on `coeffs` (any shifts / zoom factors) whose mapped coordinates are an
 integer vector `js`, the result is the **input sample** `im[js']` at the position the border rule of the mode assigns to
 `js` (`js' = js` inside the array), or `cval` when the mode flags it: zero shift and unit zoom return the input,
@@ -1283,10 +1298,10 @@ theorem C18_interpolation_property_driver {K : Type} [Field K] [LinearOrder K] [
     (h1 : z1 * z1 + l1 * z1 + 1 = 0) (h2 : z2 * z2 + l2 * z2 + 1 = 0)
     (hz1 : z1 * z1 - 1 ≠ 0) (hz2 : z2 * z2 - 1 ≠ 0)
     (cut : K → Int) (pw : K → Nat → K) (im : Img K)
-    (hshape : ∀ len ∈ im.shape, (if order ≤ 3 then 2 else 4) ≤ len)
-    (hcut : ∀ len ∈ im.shape, ∀ z ∈ ps, ¬ cut z < (len : Int))
-    (hpw : ∀ len ∈ im.shape, ∀ z ∈ ps, pw z (len - 1) = z ^ (len - 1))
-    (hP : ∀ len ∈ im.shape, ∀ z ∈ ps, 1 - z ^ (len - 1) * z ^ (len - 1) ≠ 0)
+    (hshape : ∀ len ∈ im.shape, len = 1 ∨ (if order ≤ 3 then 2 else 4) ≤ len)
+    (hcut : ∀ len ∈ im.shape, 2 ≤ len → ∀ z ∈ ps, ¬ cut z < (len : Int))
+    (hpw : ∀ len ∈ im.shape, 2 ≤ len → ∀ z ∈ ps, pw z (len - 1) = z ^ (len - 1))
+    (hP : ∀ len ∈ im.shape, 2 ≤ len → ∀ z ∈ ps, 1 - z ^ (len - 1) * z ^ (len - 1) ≠ 0)
     (shifts zooms : List (Option K)) (p js : List Int) (hl : js.length = im.shape.length)
     (hc : coordsOf im.shape p shifts zooms = js.map fun (j : Int) => (j : K)) :
     pixel fl order m cval (splineFilterP (filterLineP w ps (iniCode cut pw)) im) shifts zooms p
@@ -1302,9 +1317,9 @@ theorem C18_interpolation_property_driver {K : Type} [Field K] [LinearOrder K] [
   · have := C18_interpolation_property_border h m cval 2 6 z1 (Or.inl ⟨rfl, rfl⟩) h1 hz1 (iniCode cut pw z1)
       (splineFilterP (filterLineP 8 [z1] (iniCode cut pw)) im)
       (by rw [hs]; intro len hl'; simpa using hshape len hl')
-      (by rw [hs]; intro len hl' s
-          exact iniCode_mirrorInit cut pw z1 (hz0 z1 6 h1) len (by simpa using hshape len hl')
-            (hcut len hl' z1 (by simp)) (hpw len hl' z1 (by simp)) (hP len hl' z1 (by simp)) s)
+      (by rw [hs]; intro len hl' hlen s
+          exact iniCode_mirrorInit cut pw z1 (hz0 z1 6 h1) len hlen
+            (hcut len hl' hlen z1 (by simp)) (hpw len hl' hlen z1 (by simp)) (hP len hl' hlen z1 (by simp)) s)
       (fun q => im.getD q 0)
       (by rw [hs]; intro pos hpos; rw [hg pos hpos, lineFilterL_single]; norm_num)
       shifts zooms p js (by rw [hs]; exact hl) (by rw [hs]; exact hc)
@@ -1313,9 +1328,9 @@ theorem C18_interpolation_property_driver {K : Type} [Field K] [LinearOrder K] [
   · have := C18_interpolation_property_border h m cval 3 4 z1 (Or.inr ⟨rfl, rfl⟩) h1 hz1 (iniCode cut pw z1)
       (splineFilterP (filterLineP 6 [z1] (iniCode cut pw)) im)
       (by rw [hs]; intro len hl'; simpa using hshape len hl')
-      (by rw [hs]; intro len hl' s
-          exact iniCode_mirrorInit cut pw z1 (hz0 z1 4 h1) len (by simpa using hshape len hl')
-            (hcut len hl' z1 (by simp)) (hpw len hl' z1 (by simp)) (hP len hl' z1 (by simp)) s)
+      (by rw [hs]; intro len hl' hlen s
+          exact iniCode_mirrorInit cut pw z1 (hz0 z1 4 h1) len hlen
+            (hcut len hl' hlen z1 (by simp)) (hpw len hl' hlen z1 (by simp)) (hP len hl' hlen z1 (by simp)) s)
       (fun q => im.getD q 0)
       (by rw [hs]; intro pos hpos; rw [hg pos hpos, lineFilterL_single]; norm_num)
       shifts zooms p js (by rw [hs]; exact hl) (by rw [hs]; exact hc)
@@ -1325,13 +1340,13 @@ theorem C18_interpolation_property_driver {K : Type} [Field K] [LinearOrder K] [
       (Or.inl ⟨rfl, hsum, hprod, rfl⟩) h1 h2 hz1 hz2 (iniCode cut pw)
       (splineFilterP (filterLineP 384 [z1, z2] (iniCode cut pw)) im)
       (by rw [hs]; intro len hl'; simpa using hshape len hl')
-      (by rw [hs]; intro len hl' z hz s
-          have hlen : 2 ≤ len := by have := hshape len hl'; simp at this; omega
+      (by rw [hs]; intro len hl' hlen4 z hz s
+          have hlen : 2 ≤ len := by omega
           rcases hz with rfl | rfl
           · exact iniCode_mirrorInit cut pw z (hz0 z l1 h1) len hlen
-              (hcut len hl' z (by simp)) (hpw len hl' z (by simp)) (hP len hl' z (by simp)) s
+              (hcut len hl' hlen z (by simp)) (hpw len hl' hlen z (by simp)) (hP len hl' hlen z (by simp)) s
           · exact iniCode_mirrorInit cut pw z (hz0 z l2 h2) len hlen
-              (hcut len hl' z (by simp)) (hpw len hl' z (by simp)) (hP len hl' z (by simp)) s)
+              (hcut len hl' hlen z (by simp)) (hpw len hl' hlen z (by simp)) (hP len hl' hlen z (by simp)) s)
       (fun q => im.getD q 0)
       (by rw [hs]; intro pos hpos; rw [hg pos hpos])
       shifts zooms p js (by rw [hs]; exact hl) (by rw [hs]; exact hc)
@@ -1341,15 +1356,45 @@ theorem C18_interpolation_property_driver {K : Type} [Field K] [LinearOrder K] [
       (Or.inr ⟨rfl, hsum, hprod, rfl⟩) h1 h2 hz1 hz2 (iniCode cut pw)
       (splineFilterP (filterLineP 120 [z1, z2] (iniCode cut pw)) im)
       (by rw [hs]; intro len hl'; simpa using hshape len hl')
-      (by rw [hs]; intro len hl' z hz s
-          have hlen : 2 ≤ len := by have := hshape len hl'; simp at this; omega
+      (by rw [hs]; intro len hl' hlen4 z hz s
+          have hlen : 2 ≤ len := by omega
           rcases hz with rfl | rfl
           · exact iniCode_mirrorInit cut pw z (hz0 z l1 h1) len hlen
-              (hcut len hl' z (by simp)) (hpw len hl' z (by simp)) (hP len hl' z (by simp)) s
+              (hcut len hl' hlen z (by simp)) (hpw len hl' hlen z (by simp)) (hP len hl' hlen z (by simp)) s
           · exact iniCode_mirrorInit cut pw z (hz0 z l2 h2) len hlen
-              (hcut len hl' z (by simp)) (hpw len hl' z (by simp)) (hP len hl' z (by simp)) s)
+              (hcut len hl' hlen z (by simp)) (hpw len hl' hlen z (by simp)) (hP len hl' hlen z (by simp)) s)
       (fun q => im.getD q 0)
       (by rw [hs]; intro pos hpos; rw [hg pos hpos])
       shifts zooms p js (by rw [hs]; exact hl) (by rw [hs]; exact hc)
     rw [hs] at this
     exact this
+
+/-- **C18 (the `Float` driver instantiates the polymorphic prefilter).** What the native driver runs for
+`spline_filter` (`kind=sf`, and inside every `kind=zs` / `rs` / `rsi` line with a prefilter) is, for every order > 1,
+the polymorphic array loop `splineFilterP (filterLineP weight poles rule)` at `Float` with the code's `poles order`,
+their `poleWeight`, and the code's initialisation rule `iniCode cutLen pow`; `spline_filter1d` along one axis is
+`filterAxisP` of the same line filter; orders ≤ 1 return the input. So `C18_spline_filter_is_prefilterNd` and
+`C18_interpolation_property_driver` speak about the definitions the driver executes (instantiated at an exact field). -/
+theorem C18_driver_prefilter_instance (order : Nat) (im : Img Float) :
+    letI : NatCast Float := ⟨Float.ofNat⟩
+    letI : IntCast Float := ⟨Float.ofInt⟩
+    (1 < order → splineFilter order im
+      = splineFilterP (filterLineP (poleWeight (poles order)) (poles order)
+          (iniCode cutLen (fun p n => Float.pow p (Float.ofNat n)))) im) ∧
+    (order ≤ 1 → splineFilter order im = im) ∧
+    (∀ axis, filterAxis order im axis
+      = filterAxisP (filterLineP (poleWeight (poles order)) (poles order)
+          (iniCode cutLen (fun p n => Float.pow p (Float.ofNat n)))) im axis) := by
+  refine ⟨?_, ?_, fun axis => rfl⟩
+  · intro ho
+    unfold splineFilter
+    rw [if_neg (by omega)]
+    rfl
+  · intro ho
+    unfold splineFilter
+    rw [if_pos ho]
+
+/-- non-vacuity: the driver's prefilter leaves an order-1 request alone and keeps the shape for order 3 -/
+example : (splineFilter 1 { shape := [2], data := #[1.0, 2.0] }).shape = [2] ∧
+    (filterAxis 3 { shape := [1], data := #[1.0] } 0).shape = [1] := by
+  constructor <;> rfl
